@@ -1047,8 +1047,13 @@ MEDDLY::dd_edge::dd_edge(forest* p)
     node = 0;
     prev = nullptr;
     next = nullptr;
-    if (p)  p->registerEdge(*this);
-    else    parentFID = 0;
+    if (p) {
+        p->registerEdge(*this);
+        // start as the forest's transparent edge (typed edge value)
+        p->getTransparentEdge(edgeval, node);
+    } else {
+        parentFID = 0;
+    }
 }
 
 // Copy Constructor.
@@ -1095,8 +1100,11 @@ void MEDDLY::dd_edge::attach(forest* p)
     }
     if (p) {
         p->registerEdge(*this);
+        // start as the forest's transparent edge (typed edge value)
+        p->getTransparentEdge(edgeval, node);
     } else {
         parentFID = 0;
+        edgeval.set();
     }
 }
 
